@@ -1,5 +1,6 @@
 import SockModel.Model.PoolLemmas
 import SockModel.Spec.C10
+import SockModel.Generated.Funcs
 /-!
 # C10  BufferPool accounting and recycling, including the sockets' receive pools
 
@@ -260,3 +261,38 @@ example : (rxRun 8 { pool := create 1 8, held := [] } [.rx .nothing, .rx .exn, .
   decide
 
 end SockModel.Pool
+
+/-! ## Source-derived tie (DESIGN.md §0.7)
+
+`SockModel.Gen.*` (Generated/Funcs.lean) is regenerated on every run by tools/cxx2lean.py from the clang AST of
+the CURRENT /repo/src: BufferPool::BufferPool (m_maxCount) and the decision structure of BufferPool::Get.
+Each theorem below states that the generated function and the hand-written model function agree for ALL
+arguments; a change of the C++ function changes the generated definition and the theorem stops checking. -/
+namespace SockModel.Props.C10
+open SockModel SockModel.Pool
+
+theorem tie_create_maxM1 (n reserve : Nat) :
+    Gen.BufferPool_m_maxCount n = ((create n reserve).maxM1 : Int) := by
+  simp only [Gen.BufferPool_m_maxCount, create, sizeMax]
+  omega
+
+theorem tie_get (p : Pool) :
+    match Gen.BufferPool_Get p.maxM1 p.idle.isEmpty p.busy.length with
+    | .allocateNew =>
+      Pool.get p = .ok p.next { p with busy := p.busy ++ [p.next], next := p.next + 1,
+                                       len := upd p.len p.next 0, cap := upd p.cap p.next 0 }
+    | .throwOutOfBuffers => Pool.get p = .outOfBuffers
+    | .reuseIdleTop clear =>
+      ∃ b rest, p.idle = b :: rest ∧
+        Pool.get p = .ok b { p with idle := rest, busy := p.busy ++ [b],
+                                    len := if clear then upd p.len b 0 else p.len } := by
+  unfold Gen.BufferPool_Get Pool.get
+  cases hi : p.idle with
+  | nil =>
+    by_cases hb : p.busy.length ≤ p.maxM1
+    · have : (p.busy.length : Int) ≤ (p.maxM1 : Int) := by omega
+      simp [hb, this]
+    · have : ¬ (p.busy.length : Int) ≤ (p.maxM1 : Int) := by omega
+      simp [hb, this]
+  | cons b rest => exact ⟨b, rest, by simp⟩
+end SockModel.Props.C10
